@@ -463,4 +463,113 @@ theorem sparse_wrap_example :
 
 end sparse
 
+/-! ## 3. `MergeWithProto` on the model's stores: contents add up, for every lawful order -/
+
+section mrangeV
+
+theorem find_of_memV {V : Type} : ∀ {m : GoMap V}, List.Pairwise (fun a b => a < b) (m.map Prod.fst) →
+    ∀ {p : Int × V}, p ∈ m → m.find? (fun q => q.1 == p.1) = some p
+  | q :: rest, hs, p, hp => by
+    rw [List.find?_cons]
+    rw [List.map_cons, List.pairwise_cons] at hs
+    rcases List.mem_cons.1 hp with rfl | hp'
+    · simp
+    · have hlt := hs.1 p.1 (List.mem_map.2 ⟨p, hp', rfl⟩)
+      have : (q.1 == p.1) = false := by simp; omega
+      rw [this]
+      exact find_of_memV hs.2 hp'
+
+/-- a lawful `range` over a key-sorted map of any value type visits every entry exactly once -/
+theorem mrange_permV {V : Type} (ord : MapOrder) (hl : ord.Lawful) (m : GoMap V)
+    (hs : List.Pairwise (fun a b => a < b) (m.map Prod.fst)) : (mrange ord m).Perm m := by
+  unfold mrange
+  refine ((hl (m.map Prod.fst)).filterMap _).trans ?_
+  rw [List.filterMap_map]
+  have : List.filterMap ((fun k => (m.find? (fun p => p.1 == k)).map (fun p => (k, p.2))) ∘ Prod.fst) m
+      = List.filterMap some m := by
+    apply List.filterMap_congr
+    intro p hp
+    simp only [Function.comp, find_of_memV hs hp, Option.map_some]
+  rw [this, List.filterMap_some]
+
+end mrangeV
+
+section model
+open DDS.Lift DDS.GenSketch
+
+/-- on the model's stores (`instance : StoreI Store`) the fold of `AddWithCount` is the model's `addBins` wherever
+    that does not panic -/
+theorem addAll_of_addBins : ∀ (calls : List (Int × F64)) (st st' : Store),
+    Sketch.addBins st calls = some st' → addAll st calls = st'
+  | [], st, st', h => by simp only [Sketch.addBins, Option.some.injEq] at h; subst h; rfl
+  | p :: rest, st, st', h => by
+    rw [addAll_cons]
+    simp only [Sketch.addBins] at h
+    cases ha : Sketch.addF st p.1 p.2 with
+    | none => rw [ha] at h; cases h
+    | some st1 =>
+      rw [ha] at h
+      rw [store_addF_some st st1 p.1 p.2 ha]
+      exact addAll_of_addBins rest st1 st' h
+
+/-- the rational bins a message stands for (a non-finite weight reads 0; see `Finite`) -/
+def msgBins (ord : MapOrder) (pb : GoPb.Store F64) : List (Int × Rat) :=
+  (msgCalls ord pb).map (fun p => (p.1, (ratOfF64 p.2).getD 0))
+
+/-- every weight of the message is a finite float -/
+def Finite (pb : GoPb.Store F64) : Prop :=
+  (∀ p ∈ pb.BinCounts, ∃ q : Rat, p.2 = .fin q) ∧ (∀ c ∈ pb.ContiguousBinCounts, ∃ q : Rat, c = .fin q)
+
+theorem mem_mrange {V : Type} (ord : MapOrder) (m : GoMap V) (p : Int × V) (hp : p ∈ mrange ord m) :
+    ∃ q ∈ m, q.2 = p.2 := by
+  unfold mrange at hp
+  obtain ⟨k, _, hk⟩ := List.mem_filterMap.1 hp
+  cases hf : m.find? (fun p => p.1 == k) with
+  | none => rw [hf] at hk; cases hk
+  | some q =>
+    rw [hf] at hk
+    simp only [Option.map_some, Option.some.injEq] at hk
+    exact ⟨q, List.mem_of_find?_eq_some hf, by rw [← hk]⟩
+
+theorem msgCalls_fin (ord : MapOrder) (pb : GoPb.Store F64) (hfin : Finite pb) :
+    ∀ p ∈ msgCalls ord pb, ∃ q : Rat, p.2 = .fin q := by
+  intro p hp
+  unfold msgCalls at hp
+  rcases List.mem_append.1 hp with h | h
+  · obtain ⟨x, hx, rfl⟩ := List.mem_map.1 h
+    obtain ⟨y, hy, hxy⟩ := mem_mrange ord _ x hx
+    obtain ⟨q, hq⟩ := hfin.1 y hy
+    exact ⟨q, by rw [← hxy, hq]⟩
+  · obtain ⟨cv, hcv, rfl⟩ := List.mem_map.1 h
+    exact hfin.2 cv.1 (List.fst_mem_of_mem_zipIdx hcv)
+
+theorem msgCalls_finBins (ord : MapOrder) (pb : GoPb.Store F64) (hfin : Finite pb) :
+    msgCalls ord pb = RoundTrip.finBins (msgBins ord pb) := by
+  unfold msgBins RoundTrip.finBins
+  rw [List.map_map]
+  symm
+  refine (List.map_congr_left ?_).trans (List.map_id _)
+  intro p hp
+  obtain ⟨q, hq⟩ := msgCalls_fin ord pb hfin p hp
+  obtain ⟨i, c⟩ := p
+  simp only at hq
+  subst hq
+  rfl
+
+/-- MAIN (generic `MergeWithProto` on the model's stores, ANY kind, EVERY oracle, any fuel).  The receiver is a good
+    store holding the clamped form of the exact content `E` (`E = contentOf st` for the unbounded kinds); the message
+    has finite weights `≥ 0` and `int32` indexes (`BinsOK`: any index for a zero weight).  Then the merge never panics,
+    keeps the store good and of its kind, and the store holds `clamp (E.merge bins)`: the message's bins added up -/
+theorem mergeWithProto_good_store (fuel : Nat) (ord : MapOrder) (st : Store) (hg : Good st)
+    (E : Content) (hE : E.WF) (hcE : contentOf st = st.clamp.apply E) (pb : GoPb.Store F64) (hfin : Finite pb)
+    (hok : BinsOK (msgBins ord pb)) :
+    ∃ st', Gen.StoreProto.MergeWithProto fuel ord st pb = .ok st' ∧ Good st' ∧ st'.kind = st.kind ∧
+      contentOf st' = st.clamp.apply (E.merge (msgBins ord pb)) := by
+  obtain ⟨st', a1, a2, a3, a4⟩ := addList_good (msgBins ord pb) hok st hg E hE hcE
+  refine ⟨st', ?_, a2, a3, a4⟩
+  rw [← addBins_finBins] at a1
+  rw [mergeWithProto_eq_fold, msgCalls_finBins ord pb hfin, addAll_of_addBins _ _ _ a1]
+
+end model
+
 end DDS.GenProtoStore
